@@ -524,6 +524,38 @@ func (inst *fsInstance) lookupPod(p *fsPod) *api.PodSandbox {
 	return pod
 }
 
+// every request of a real runtime carries freshly unmarshalled messages: hand the plugin copies,
+// never the objects the harness keeps as the runtime's own state
+func cloneCtr(c *api.Container) *api.Container {
+	if c == nil {
+		return nil
+	}
+	b, err := json.Marshal(c) // the encoding the cache itself persists containers with
+	if err != nil {
+		panic(err)
+	}
+	out := &api.Container{}
+	if err := json.Unmarshal(b, out); err != nil {
+		panic(err)
+	}
+	return out
+}
+
+func clonePod(p *api.PodSandbox) *api.PodSandbox {
+	if p == nil {
+		return nil
+	}
+	b, err := json.Marshal(p)
+	if err != nil {
+		panic(err)
+	}
+	out := &api.PodSandbox{}
+	if err := json.Unmarshal(b, out); err != nil {
+		panic(err)
+	}
+	return out
+}
+
 func (inst *fsInstance) lookupCtr(c *fsCtr) *api.Container {
 	if c == nil {
 		return nil
@@ -560,25 +592,25 @@ func (inst *fsInstance) exec(ev *fsEvent, out *fsOut) {
 	case "RunPodSandbox":
 		pod := mkPod(ev.Pod)
 		inst.pods[pod.Id] = pod
-		err = p.RunPodSandbox(ctx, pod)
+		err = p.RunPodSandbox(ctx, clonePod(pod))
 	case "StopPodSandbox":
-		err = p.StopPodSandbox(ctx, inst.lookupPod(ev.Pod))
+		err = p.StopPodSandbox(ctx, clonePod(inst.lookupPod(ev.Pod)))
 	case "RemovePodSandbox":
-		err = p.RemovePodSandbox(ctx, inst.lookupPod(ev.Pod))
+		err = p.RemovePodSandbox(ctx, clonePod(inst.lookupPod(ev.Pod)))
 	case "CreateContainer":
 		ctr := mkCtr(ev.Ctr)
 		inst.ctrs[ctr.Id] = ctr
 		pod := inst.pods[ctr.PodSandboxId]
 		var adj *api.ContainerAdjustment
 		var upd []*api.ContainerUpdate
-		adj, upd, err = p.CreateContainer(ctx, pod, ctr)
+		adj, upd, err = p.CreateContainer(ctx, clonePod(pod), cloneCtr(ctr))
 		if adj != nil {
 			out.Reply.Adjust = convUpdate(ctr.Id, adj.GetLinux().GetResources(), len(adj.Mounts), adj.Linux != nil)
 		}
 		out.Reply.Updates = convUpdates(upd)
 	case "StartContainer":
 		ctr := inst.lookupCtr(ev.Ctr)
-		err = p.StartContainer(ctx, inst.pods[ctr.PodSandboxId], ctr)
+		err = p.StartContainer(ctx, clonePod(inst.pods[ctr.PodSandboxId]), cloneCtr(ctr))
 	case "UpdateContainer":
 		ctr := inst.lookupCtr(ev.Ctr)
 		var upd []*api.ContainerUpdate
@@ -586,16 +618,51 @@ func (inst *fsInstance) exec(ev *fsEvent, out *fsOut) {
 		if !ev.NilRes {
 			res = mkRes(ev.Res)
 		}
-		upd, err = p.UpdateContainer(ctx, inst.pods[ctr.PodSandboxId], ctr, res)
+		upd, err = p.UpdateContainer(ctx, clonePod(inst.pods[ctr.PodSandboxId]), cloneCtr(ctr), res)
 		out.Reply.Updates = convUpdates(upd)
+		if err == nil && res != nil && ctr.Linux != nil {
+			// the runtime applies an accepted update: later requests carry the new resources
+			if stored, ok := inst.ctrs[ctr.Id]; ok && stored.Linux != nil {
+				cur := stored.Linux.Resources
+				if cur == nil {
+					cur = &api.LinuxResources{}
+					stored.Linux.Resources = cur
+				}
+				if res.Cpu != nil {
+					if cur.Cpu == nil {
+						cur.Cpu = &api.LinuxCPU{}
+					}
+					if res.Cpu.Shares != nil {
+						cur.Cpu.Shares = res.Cpu.Shares
+					}
+					if res.Cpu.Quota != nil {
+						cur.Cpu.Quota = res.Cpu.Quota
+					}
+					if res.Cpu.Period != nil {
+						cur.Cpu.Period = res.Cpu.Period
+					}
+				}
+				if res.Memory != nil {
+					if cur.Memory == nil {
+						cur.Memory = &api.LinuxMemory{}
+					}
+					if res.Memory.Limit != nil {
+						cur.Memory.Limit = res.Memory.Limit
+					}
+					if res.Memory.Swap != nil {
+						cur.Memory.Swap = res.Memory.Swap
+					}
+				}
+			}
+		}
 	case "StopContainer":
 		ctr := inst.lookupCtr(ev.Ctr)
 		var upd []*api.ContainerUpdate
-		upd, err = p.StopContainer(ctx, inst.pods[ctr.PodSandboxId], ctr)
+		upd, err = p.StopContainer(ctx, clonePod(inst.pods[ctr.PodSandboxId]), cloneCtr(ctr))
 		out.Reply.Updates = convUpdates(upd)
 	case "RemoveContainer":
 		ctr := inst.lookupCtr(ev.Ctr)
-		err = p.RemoveContainer(ctx, inst.pods[ctr.PodSandboxId], ctr)
+		err = p.RemoveContainer(ctx, clonePod(inst.pods[ctr.PodSandboxId]), cloneCtr(ctr))
 	case "Synchronize":
 		pods := []*api.PodSandbox{}
 		for _, fp := range ev.Pods {
@@ -607,9 +674,8 @@ func (inst *fsInstance) exec(ev *fsEvent, out *fsOut) {
 		for _, fc := range ev.Ctrs {
 			var ctr *api.Container
 			if old, ok := inst.ctrs[fc.ID]; ok && fc.Name == "" {
-				cp := *old
-				cp.State = mkState(fc.State)
-				ctr = &cp
+				ctr = cloneCtr(old)
+				ctr.State = mkState(fc.State)
 			} else {
 				ctr = mkCtr(fc)
 			}
@@ -617,7 +683,14 @@ func (inst *fsInstance) exec(ev *fsEvent, out *fsOut) {
 			ctrs = append(ctrs, ctr)
 		}
 		var upd []*api.ContainerUpdate
-		upd, err = p.Synchronize(ctx, pods, ctrs)
+		cpods, cctrs := []*api.PodSandbox{}, []*api.Container{}
+		for _, x := range pods {
+			cpods = append(cpods, clonePod(x))
+		}
+		for _, x := range ctrs {
+			cctrs = append(cctrs, cloneCtr(x))
+		}
+		upd, err = p.Synchronize(ctx, cpods, cctrs)
 		out.Reply.Updates = convUpdates(upd)
 	case "Reconfigure":
 		var cfg cfgapi.ResmgrConfig
